@@ -12,7 +12,8 @@
 //!   L <present> kind pid                             kind 0 "Pid:\t<pid>" | 1 no Pid line | 2 garbage value
 //!   MOD <m> { base size }*m
 //!   UNL <u> { base size nameid }*u                   module name "u<nameid %02>"
-//!   MEM <r> { base size }*r                          region j is filled with the word 0x70000100+16*j
+//!   MEM <r> { base size }*r                          region j is filled with the word 0x70000100+16*j (64-bit CPUs)
+//!                                                   or with the byte 0x70+j (32-bit CPUs: any alignment reads 0x7j7j7j7j)
 //!   LK <q> { enum value }*q                          (only read by the model)
 //! answer:
 //!   T=<id>:<name|->:<info>:<ip|->:<sp|->:<frames>:<f1 instr|->:<unl>,...;R=<idx|->;X=<addr>:<family>:<payload+>|-;
@@ -295,8 +296,13 @@ pub fn build_dump(c: &Case) -> Vec<u8> {
         let w = ANCHOR_WORD + 16 * j as u64;
         let mut s = Section::with_endian(e);
         let mut left = size as usize;
+        if wsize == 4 {
+            // 32-bit CPUs: every byte is 0x70+j, so a word read at ANY alignment is 0x7j7j7j7j (inside the anchor module)
+            s = s.append_repeated(0x70 + (j as u8 & 0xf), left);
+            left = 0;
+        }
         while left >= wsize {
-            s = if wsize == 8 { s.D64(w) } else { s.D32(w as u32) };
+            s = s.D64(w);
             left -= wsize;
         }
         s = s.append_repeated(0, left);
